@@ -1,35 +1,43 @@
 #!/usr/bin/env python3
-"""Regenerates MANIFEST.json from the table below (kept in one place so it is always valid)."""
-import json, os
+"""Regenerates MANIFEST.json: a property is claimed iff harness/props/cNN.py exists (its LEVEL_TEXT,
+ASSUMPTIONS, TRUSTED_BASE feed the entry); everything else is listed under not_applicable with a reason."""
+import importlib
+import json
+import os
+import sys
+
 HERE = os.path.dirname(os.path.dirname(os.path.abspath(__file__)))
+sys.path.insert(0, os.path.join(HERE, "harness"))
 ALL = ["C%02d" % i for i in range(1, 21)]
-CLAIMED = {
-    "C11": dict(
-        text="Machine-checked Lean 4 theorems (round trip, RFC 4648 form, rejection, buffer bounds for every input length and every initial buffer content) over a literal model of base64.c and jwt_base64uri_*; tables/constants/size macros regenerated from the source on every run and re-proved; model tied to the code by exhaustive and structured differential runs of the ASan/UBSan build plus an independent (Python base64) falsifier.",
-        ref="DESIGN.md section 8, C11",
-        note="Trusted: Lean kernel; axioms propext/Classical.choice/Quot.sound only; tie/extract.py; harness/exec.c and the Python differ; malloc sizes in jwt.c are modelled by hand and witnessed by ASan.",
-        technique="Lean 4 proof by induction (fun_induction, omega, decide +kernel over complete byte tables) + generated facts + differential correspondence"),
-}
-REASONS = {p: "check not built yet in this round (design in DESIGN.md section 8); not claimed until its theorems and correspondence suite exist" for p in ALL}
+TECH = "Lean 4 machine-checked proof over a hand-written model (induction / invariants / refinement / kernel-decided finite tables) + generated facts + differential correspondence with the ASan/UBSan build"
+NOT_YET = "check not built yet in this round (design in DESIGN.md section 8); not claimed until its theorems and correspondence suite exist"
+REASONS = {}
 m = {
     "version": 1,
     "setup_cmd": "cd lean && lake build",
     "hooks": {"guard": "LIBJWT_VERIF", "enable": "none needed: the executor links the static library and supplies time(); no guarded source changes exist",
               "baseline_off_cmd": "selftest/repo_tests.sh /repo", "source_commits": [], "add_only": True},
-    "engines": [{"name": "lean-model", "path": "lean/", "serves_properties": sorted(CLAIMED), "kind_free_text": "Lean 4 model + theorems (core only), compiled line-protocol driver"},
-                {"name": "correspondence", "path": "harness/", "serves_properties": sorted(CLAIMED), "kind_free_text": "C executor over the ASan/UBSan static build of the working tree, Python generators/differ/falsifiers"},
-                {"name": "translator", "path": "tie/extract.py", "serves_properties": sorted(CLAIMED), "kind_free_text": "source -> Jwt/Generated/*.lean (tables, constants, macros)"}],
-    "checks": [], "not_applicable": [],
-    "notes": "Single entry point ./check <id> --tier quick|thorough. VERIF_SEED seeds every random choice; VERIF_REPO points the checks at another tree (self-test only).",
+    "engines": [], "checks": [], "not_applicable": [],
+    "notes": "Single entry point ./check <id> --tier quick|thorough. VERIF_SEED seeds every random choice; VERIF_REPO points the checks at another tree (self-test only). Unguarded 'fix:' commits in /repo are listed in known-findings.txt.",
 }
+claimed = []
 for p in ALL:
-    if p in CLAIMED:
-        c = CLAIMED[p]
-        m["checks"].append({"property_id": p, "quick_cmd": "./check %s --tier quick" % p, "thorough_cmd": "./check %s --tier thorough" % p,
-                            "evidence_file": "evidence/%s.json" % p, "replay_cmd_template": "./check %s --replay {path}" % p,
-                            "engine": "lean-model", "level_claimed": {"category": "proof", "text": c["text"], "design_ref": c["ref"]},
-                            "level_note": c["note"], "technique": c["technique"]})
+    path = os.path.join(HERE, "harness", "props", p.lower() + ".py")
+    if os.path.exists(path):
+        mod = importlib.import_module("props." + p.lower())
+        claimed.append(p)
+        m["checks"].append({
+            "property_id": p, "quick_cmd": "./check %s --tier quick" % p, "thorough_cmd": "./check %s --tier thorough" % p,
+            "evidence_file": "evidence/%s.json" % p, "replay_cmd_template": "./check %s --replay {path}" % p,
+            "engine": "lean-model",
+            "level_claimed": {"category": "proof", "text": mod.LEVEL_TEXT, "design_ref": "DESIGN.md section 8, %s" % p},
+            "level_note": "Trusted: " + "; ".join(mod.TRUSTED_BASE) + ". Assumed: " + "; ".join(mod.ASSUMPTIONS),
+            "technique": getattr(mod, "TECHNIQUE", TECH)})
     else:
-        m["not_applicable"].append({"property_id": p, "reason": REASONS[p]})
+        m["not_applicable"].append({"property_id": p, "reason": REASONS.get(p, NOT_YET)})
+m["engines"] = [
+    {"name": "lean-model", "path": "lean/", "serves_properties": claimed, "kind_free_text": "Lean 4 model + theorems (core only), compiled line-protocol driver"},
+    {"name": "correspondence", "path": "harness/", "serves_properties": claimed, "kind_free_text": "C executor over the ASan/UBSan static build of the working tree, independent oracles, Python generators/differ/falsifiers"},
+    {"name": "translator", "path": "tie/extract.py", "serves_properties": claimed, "kind_free_text": "source -> Jwt/Generated/*.lean (tables, constants, macros, defaults)"}]
 json.dump(m, open(os.path.join(HERE, "MANIFEST.json"), "w"), indent=1)
-print("claimed:", sorted(CLAIMED))
+print("claimed:", claimed)
